@@ -80,7 +80,7 @@ class C07(Property):
 
     def explore(self, ctx: Ctx) -> None:
         rng = ctx.rng
-        n, k = (120, 4) if ctx.tier == "thorough" else (50, 2)
+        n, k = (300, 4) if ctx.tier == "thorough" else (50, 2)
         if ctx.mode == "search":
             n, k = n * 2, k + 2
         lines, metas = [], []
